@@ -117,6 +117,7 @@ _C08 = [
     ("c08_auth_to_bytes_0", "thorough", 2700, 1018, "ICV 0 bytes (after having held 8)", ["IpAuthHeader::{to_bytes,write,header_len}"]),
     ("c08_auth_to_bytes_1", "thorough", 2700, 1018, "ICV 4 bytes (after having held 8)", ["IpAuthHeader::{to_bytes,write,header_len}"]),
     # ---- raw IPv6 extension header
+    ("c08_auth_to_bytes_2", "thorough", 2700, 1018, "ICV 8 bytes", ["IpAuthHeader::{to_bytes,write,header_len}"]),
     ("c08_raw_ext_value", "quick", 600, 26, "payload 6/14/22 bytes (length field 0..=2), optionally replaced by a shorter one",
      ["Ipv6RawExtHeader::{new_raw,set_payload,write,header_len,from_slice}", "Ipv6RawExtHeaderSlice::{from_slice,to_header}"]),
     ("c08_raw_ext_value_read", "quick", 600, 26, "payload 6/14/22 bytes", ["Ipv6RawExtHeader::{write,read}"]),
@@ -135,6 +136,8 @@ _C08 = [
      ["Ipv4Extensions::{write,header_len,is_empty,from_slice,read}"]),
     ("c08_ipv4_exts_bytes_auth", "quick", 600, 26, "start number 51, all byte strings of length <= 24",
      ["Ipv4Extensions::{from_slice,header_len}", "Ipv4ExtensionsSlice::{from_slice,to_header}", "IpAuthHeader::from_slice"]),
+    ("c08_ipv4_exts_auth_enc", "thorough", 2700, 1018, "authentication header with 4 byte ICV (after having held 8), start number 51",
+     ["Ipv4Extensions::{write,header_len,is_empty}", "IpAuthHeader::{to_bytes,write}"]),
     ("c08_ipv4_exts_auth_dec", "thorough", 900, 26, "authentication header with ICV 0/4/8 bytes, start number 51",
      ["Ipv4Extensions::{header_len,from_slice,read}", "IpAuthHeader::{write,read}"]),
     # ---- IPv6 extensions (concrete chain shape per harness, see claim)
@@ -151,6 +154,8 @@ _C08 = [
     ("c08_ipv6_exts_all_raw_enc", "thorough", 1800, 9,
      "chain: hop-by-hop -> destination options -> routing -> fragment -> destination options -> UDP (raw headers 8 bytes)",
      ["Ipv6Extensions::{set_next_headers,write,header_len}", "Ipv6RawExtHeader::{to_bytes,write}"]),
+    ("c08_ipv6_exts_auth_enc", "thorough", 2700, 1018, "chain: authentication header (4 byte ICV) -> UDP",
+     ["Ipv6Extensions::{set_next_headers,write,header_len}", "IpAuthHeader::{to_bytes,write}"]),
     ("c08_ipv6_exts_auth_slice", "thorough", 1800, 9, "chain: authentication header (4 byte ICV) -> UDP", ["Ipv6Extensions::from_slice"]),
     # ---- IpHeaders
     ("c08_ip_headers_v4_enc", "quick", 600, 30, "IPv4 with 0 and 4 option bytes, no extension, protocol UDP, payload 0..=2",
@@ -174,21 +179,20 @@ PROP = {
              "echo, ICMPv4/ICMPv6 all variants, IGMP all variants, group record, NDP prefix information / NDP fixed parts, "
              "LinkHeader/LinkExtHeader/TransportHeader wrappers) are complete over all field values and all byte strings up to "
              "the stated length. Variable parts: IPv4 options all 11 lengths, TCP options all lengths 0..=40, AH ICV 0/4/8 "
-             "bytes through write/from_slice/read (ICV <= 12 bytes in direction 2) and ICV 0/4 bytes through to_bytes "
+             "bytes through write/from_slice/read (ICV <= 12 bytes in direction 2) and through to_bytes "
              "[thorough], raw IPv6 extension payload 6/14/22 bytes (to_bytes once per length), ARP with concrete address size "
              "pairs (6,4),(1,2) [quick] + (0,0),(8,8),(3,0),(0,5),(8,8)->(6,4) shrunk [thorough]. Ipv6Extensions: concrete "
              "chain shapes with minimal member sizes and symbolic contents, upper protocol UDP; encode (write == the members' "
              "own serialisers in link order, length == header_len) and decode (decoding those bytes gives the value back) are "
              "decided in separate harnesses over the same value set: empty, fragment [quick]; hop-by-hop+fragment (enc+dec), "
              "routing+fragment+destination options in a non-RFC order (enc), all five raw/fragment members (enc), "
-             "authentication header (dec) [thorough]. Ipv4Extensions: none (all), with AH: decode side. IpHeaders: IPv4 variant "
+             "authentication header (enc+dec) [thorough]. Ipv4Extensions: none (all), with AH: enc (4 byte ICV) + dec (ICV 0/4/8) "
+             "[thorough]. IpHeaders: IPv4 variant "
              "without extension header (enc: 0/4/40 option bytes; dec via from_slice: 4 option bytes).",
     "outside": "larger variable parts (ICV > 12 bytes, raw extension payload > 22 bytes, ARP address sizes other than the listed "
                "pairs - the four ARP field offsets are affine in the two sizes and the pairs used are not collinear). NOT "
                "decided because CBMC did not finish within 20 min / 20 GB on the shared machine (each measured): "
-               "Ipv4Extensions::write / Ipv6Extensions::write / IpHeaders::write with an authentication header present (they "
-               "call IpAuthHeader::to_bytes, which is decided on its own); IpAuthHeader::to_bytes with an 8 byte ICV; "
-               "Ipv6Extensions with symbolic presence/links or a symbolic upper protocol, its decode side for chains with "
+               "IpHeaders with an authentication header; Ipv6Extensions with symbolic presence/links or a symbolic upper protocol, its decode side for chains with "
                "more than two members, and its direction 2; IpHeaders with the IPv6 variant (9 KB enum payload: > 20 GB even "
                "without extension headers), IpHeaders::read, IpHeaders direction 2, NetHeaders::header_len for IPv6. These "
                "compositions only add dispatch over member serialisers that are decided individually. DoubleVlanHeader has "
